@@ -27,3 +27,75 @@ PROPS["C17"] = dict(
     ],
     not_decided=[],
 )
+
+PATH_TRUST = [
+    "std::path model (A): PathBuf/Path identified with an abstract byte view; PathBuf keys obey vstd's BTreeMap key model; PathBuf::clone returns an equal value",
+    "slice::sort / sort_unstable / Vec::dedup / Option::copied / Option::map_or: assumed contracts (sorted by Ord, same elements, duplicates removed)",
+]
+
+PROPS["C18"] = dict(
+    level="proof",
+    units=[dict(template="units/reconcile.rs", slice=["*"])],
+    kani=[
+        dict(harness="c18_reconcile_path_is_the_table", repo_fn="src/bin/copia/reconcile.rs reconcile_path",
+             desc="forall (a,b,base) in (Fingerprint+absent)^3 with symbolic 32-byte digests: reconcile_path == documented table; 6 reachability covers"),
+        dict(harness="c18_mirror_symmetric", repo_fn="src/bin/copia/reconcile.rs reconcile_path", desc="reconcile_path(b,a,z) == mirror(reconcile_path(a,b,z))"),
+        dict(harness="c18_depends_only_on_equality_pattern", repo_fn="src/bin/copia/reconcile.rs reconcile_path",
+             desc="two triples with the same presence bits and the same pairwise (BLAKE3, entry type) equalities get the same action"),
+        dict(harness="c18_no_delete_without_base", repo_fn="src/bin/copia/reconcile.rs reconcile_path", desc="base absent ==> never DeleteA/DeleteB"),
+    ],
+    clauses={
+        "reconcile_path": "Kani (complete: loop-free, full symbolic domain incl. arbitrary 32-byte digests) on the real file: == table, mirror symmetry, dependence only on the equality pattern, no delete without base",
+        "reconcile": "Verus: output == exactly the non-Noop table decisions for dom(a) ∪ dom(b), each path once, in path order, base forced to None when untrusted",
+    },
+    trusted=COMMON_TRUST + PATH_TRUST + [
+        "Kani 0.68 + CBMC 6.11 (bit-precise, the harness #[path]-includes the unedited reconcile.rs)",
+        "R5 shim keys_chain for the iterator expression `a.keys().chain(b.keys()).collect()` (assumed: yields exactly the keys of a and of b)",
+        "the Verus caller `reconcile` consumes `reconcile_path`'s contract proved by Kani (cross-back-end modularity; same table text in both)",
+    ],
+    assumptions=[],
+    not_decided=[],
+)
+
+PROPS["C19"] = dict(
+    level="proof",
+    units=[dict(template="units/plan.rs", slice=["*"])],
+    kani=[dict(harness="c19_needs_transfer_is_quick_check", repo_fn="src/bin/copia/plan.rs needs_transfer",
+               desc="forall (src, dst?) over full u64 x i64: needs_transfer == (dst absent || size differs || mtime differs)")],
+    twins=[
+        dict(name="is_excluded", repo_fn="src/bin/copia/plan.rs is_excluded", quick=3, thorough=60,
+             contract="assumed grammar of Path::components()/to_string_lossy()/trim_end_matches/contains (R5 shims of is_excluded): normal components = '/'-separated segments other than '', '.', '..'"),
+        dict(name="parse_remote_meta_output", repo_fn="src/bin/copia/meta.rs parse_remote_meta_output", quick=2, thorough=60,
+             contract="a listing written as find -printf '%s\\t%T@\\t%p\\0' parses back into the (path, size, whole-second mtime) triples that produced it"),
+    ],
+    clauses={
+        "build_plan": "transfer == sorted, duplicate-free {p in dom src | !excluded(p) && needs(src p, dst.get p)}; skipped + |transfer| == |{p in dom src | !excluded(p)}|; delete == [] unless requested, else sorted duplicate-free {p in dom dst | p not in dom src && !excluded(p)}",
+        "glob_match": "result == recursive wildcard semantics gm(pattern, text) for ALL patterns and texts (unbounded), incl. texts containing * and ?",
+        "is_excluded": "result == exists pattern: trimmed pattern non-empty && (contains '/' ? gm(pattern, whole path) : some Normal component matches)",
+        "needs_transfer": "Verus + Kani (complete) on the real function",
+    },
+    trusted=COMMON_TRUST + PATH_TRUST + [
+        "R5 shims in is_excluded: Path::components()/Component::Normal/OsStr::to_string_lossy/str::trim_end_matches('/')/str::contains('/')/str::is_empty replaced by shims with assumed contracts (validated against real std by the twin run, not proved)",
+        "R5 shim syncplan_default for the derived SyncPlan::default()",
+    ],
+    assumptions=["src map has fewer than usize::MAX entries"],
+    not_decided=["parse_remote_meta_output round-trip: no contract within Verus' reach (from_utf8_lossy/splitn/parse); kept as an assumed contract with differential twin validation only (reported under assumed_validated, never counted as an obligation)"],
+)
+
+PROPS["C15"] = dict(
+    level="proof",
+    units=[dict(template="units/plan.rs", slice=["*"])],
+    twins=[dict(name="is_excluded", repo_fn="src/bin/copia/plan.rs is_excluded", quick=3, thorough=60,
+                contract="assumed std::path component grammar behind the R5 shims of is_excluded")],
+    clauses={
+        "wildcard semantics": "glob_match == gm (unbounded): '*' any run, '?' exactly one, all else literal even when the text contains '*' or '?'",
+        "exclude rule": "is_excluded == slash-free pattern matches any single component / pattern with '/' matches the whole relative path; trailing '/' trimmed; empty pattern ignored",
+        "protect": "build_plan: an excluded path is in neither transfer nor delete (both sets are filtered by !excluded)",
+        "delete opt-in": "build_plan: !with_delete ==> delete is empty",
+    },
+    trusted=COMMON_TRUST + PATH_TRUST + ["R5 shims in is_excluded (assumed std::path/str contracts, validated by the twin run)"],
+    assumptions=[],
+    not_decided=["--dry-run of `sync -r` returns inside tokio orchestration (run_local/run_remote) that is outside reach: undecided",
+                 "'printed actions == performed actions' is a statement about two runs; not decided",
+                 "bisync --dry-run: see the world-model unit (added when the bisync units are registered)"],
+)
